@@ -6,7 +6,7 @@ from lib import core
 from lib.core import cz, czl
 from harness import common, sess, smppref
 
-THEOREMS = ['C08_segments_received', 'C08_at_most_255_segments', 'C08_udh_16bit_reference', 'C08_gsm_chunks', 'C08_ucs2_chunks', 'C08_limits', 'C08_nonvacuous']
+THEOREMS = ['C08_segments_received', 'C08_at_most_255_segments', 'C08_udh_16bit_reference', 'C08_gsm_chunks', 'C08_ucs2_chunks', 'C08_limits', 'C08_segments_are_full_copies', 'C08_nonvacuous']
 IMPORTS = ['AV.Model.Base', 'AV.Model.Codec', 'AV.Model.Split']
 
 
